@@ -6,6 +6,7 @@ import FV.IoRetain
 import FV.WalkAddr
 import FV.Props.C03
 import FV.Props.C05
+import FV.Props.C12
 /-! # C07 — blocking IO delivers the sent sequence under every chunking
 
 Pipe = a script with one entry per `read` / `write` call. "Every interleaving of a sender and a receiver thread over a
@@ -118,4 +119,37 @@ at address 8 read as the specified content -/
 example : (emplaceU S1 (.ustruct [[1,0,0,0]] (.vecArr [[7],[8],[9]])) ⟨0, List.replicate 16 9⟩).bind
       (fun o => (S1.dict.walk ⟨8, o.bytes.take 12⟩).map Val.strip) = specV S1 (.ustruct [[1,0,0,0]] (.vecArr [[7],[8],[9]])) := by
   rfl
+/-- **C07 (a message mutated in place is deliverable).** Take any valid `FlexVec` message in the send buffer and apply any finite
+sequence of `push` / `pop` / `truncate` / `clear` through the guard. The run never faults; the result validates; its `size()` —
+the number of bytes `send` writes — does not exceed the buffer; and those first `size()` bytes alone validate again with the same
+`size()`: exactly the hypothesis under which `C07_receiver_delivers` delivers a message. -/
+theorem C07_edited_flex_is_deliverable (it : Ty) (h : it.WF) (l : LenTy) (hl : l.Law) (ops : List FOp)
+    (hwt : ∀ i, FOp.push i ∈ ops → InitWT it i) (data : Slice)
+    (hend : data.len % max l.align it.dict.align = 0) (hv : (Ty.flex it l).dict.validate data = .ok ()) :
+    ∃ b' z, frun it l ops data = .ok b' ∧ b'.length = data.len ∧
+      (Ty.flex it l).dict.validate ⟨data.addr, b'⟩ = .ok () ∧ (Ty.flex it l).dict.size ⟨data.addr, b'⟩ = .ok z ∧ z ≤ b'.length ∧
+      (Ty.flex it l).dict.validate ⟨data.addr, b'.take z⟩ = .ok () ∧ (Ty.flex it l).dict.size ⟨data.addr, b'.take z⟩ = .ok z := by
+  have hwf : (Ty.flex it l).WF := ⟨h, hl⟩
+  obtain ⟨hal, hmin, hu⟩ := validate_ok_iff.1 hv
+  have hfl : floorMul data.len (max l.align it.dict.align) = data.len := by
+    unfold floorMul; have := Nat.div_add_mod data.len (max l.align it.dict.align); rw [hend] at this; rw [Nat.mul_comm]; omega
+  have htake : data.take data.len = data := by cases data; simp [Slice.take, Slice.len]
+  have hu' : flexValidate it.dict l (max l.size it.dict.align) (data.len + 1) 0 data = .ok () := by
+    have := hu; simp only [Ty.dict, flexD, hfl, htake] at this; exact this
+  obtain ⟨items, hc⟩ := (C12_valid_iff_sequence it h l hl data).1 hu'
+  obtain ⟨b', items', hrun, hlen, hc', _⟩ := C12_history it h l hl ops hwt data items hc hend
+  have hv' : (Ty.flex it l).dict.validate ⟨data.addr, b'⟩ = .ok () := by
+    apply validate_ok_iff.2
+    refine ⟨hal, ?_, ?_⟩
+    · simp only [Slice.len]; rw [hlen]; exact hmin
+    · have hval := (C12_valid_iff_sequence it h l hl ⟨data.addr, b'⟩).2 ⟨items', hc'⟩
+      have hl' : (⟨data.addr, b'⟩ : Slice).len = data.len := by simp [Slice.len, hlen]
+      have htake' : (⟨data.addr, b'⟩ : Slice).take data.len = ⟨data.addr, b'⟩ := by simp [Slice.take, ← hlen]
+      simp only [Ty.dict, flexD, hl', hfl, htake']
+      rw [hl'] at hval; exact hval
+  obtain ⟨z, hz, hzle, _, h1, h2⟩ := C05_size_exact (Ty.flex it l) hwf ⟨data.addr, b'⟩ hv'
+  exact ⟨b', z, hrun, hlen, hv', hz, by simpa [Slice.len] using hzle, by simpa [Slice.take] using h1, by simpa [Slice.take] using h2⟩
+/-- non-vacuity: an 8-byte `FlexVec<FlatVec<u8,u8>, u8>` holding one item validates and its length is a whole number of alignment units -/
+example : (Ty.flex (.vec u8 L8) L8).dict.validate ⟨0, [255, 2, 7, 8, 9, 9, 9, 9]⟩ = .ok () ∧
+    (⟨0, [255, 2, 7, 8, 9, 9, 9, 9]⟩ : Slice).len % max L8.align (Ty.vec u8 L8).dict.align = 0 := by decide +kernel
 end FV.Props
